@@ -112,15 +112,22 @@ class CallMixin:
         self.assumed_calls[what] = self.assumed_calls.get(what, 0) + 1
 
     # ------------------------------------------------------------------ write-back of mutated containers
-    def assign_to(self, st: State, target: ast.expr, val: V) -> State:
-        """Assign a value to an lvalue expression (no path splitting expected)."""
+    def assign_to(self, st: State, target: ast.expr, val: V, mut=False) -> State:
+        """Assign a value to an lvalue expression (no path splitting expected).  mut=True: the assignment is the
+        write-back of an in-place mutation of the container the lvalue holds."""
         if isinstance(target, ast.Name):
             x = st.frame.locals.get(target.id)
             if isinstance(x, FieldAlias):
                 return self.field_write(st, x.ref, x.cls, x.field, val)
-            if target.id in st.shared and isinstance(val.t, (TSet, TMap, TSeq)):
+            if mut and target.id in st.shared and isinstance(val.t, (TSet, TMap, TSeq)):
                 raise EngineError(f"mutation of local container {target.id!r} that has a local alias")
-            return st.with_local(target.id, val)
+            s2 = st.with_local(target.id, val)
+            if len(s2.frames) == 1:
+                if mut and target.id not in s2.ghost.get("$detached", frozenset()):
+                    s2.ghost["$mutated"] = s2.ghost.get("$mutated", frozenset()) | {target.id}
+                elif not mut:
+                    s2.ghost["$detached"] = s2.ghost.get("$detached", frozenset()) | {target.id}
+            return s2
         if isinstance(target, ast.Attribute):
             (st1, base), = self._single(target.value, st)
             base = self.as_value(base)
@@ -149,7 +156,7 @@ class CallMixin:
                 new = vals.seq_set(cont, z3.If(i < 0, i + n, i), val)
             else:
                 raise EngineError(f"subscript store on {cont.t}")
-            return self.assign_to(st2, target.value, new)
+            return self.assign_to(st2, target.value, new, mut=True)
         raise EngineError(f"assignment target {ast.unparse(target)}")
 
     def map_put(self, st, m: V, k: V, v: V):
@@ -187,7 +194,10 @@ class CallMixin:
             st2 = st.fork()
             st2.frame.locals = dict(zip(p.params, args))
             # keep 'result' etc. out; but bound quantifier variables are passed explicitly
-            yield st, self.spec_eval(p.body, st2)
+            v, ax = self.spec_eval_full(p.body, st2)
+            for a_ in ax:
+                st = st.assume(a_)
+            yield st, v
             return
         if name in REG.ufuns and self.spec:
             arg_ts, ret_t, fs = self.ufun(name)
@@ -741,7 +751,7 @@ class CallMixin:
             if newrecv is not None:
                 if mr.recv_node is None:
                     raise EngineError("mutation of a temporary container")
-                st1 = self.assign_to(st1, mr.recv_node, newrecv)
+                st1 = self.assign_to(st1, mr.recv_node, newrecv, mut=True)
             yield st1, result
 
     # -- set -------------------------------------------------------------------
